@@ -28,6 +28,13 @@ for f in glob.glob(f"{work}/fuzz-*.log"):
     if m: execs += int(m[-1])
 arts = sorted(glob.glob(f"{art}/*"))
 rc = 0
+# libFuzzer's own watchdogs (per-input timeout, memory limit, slow unit) are a matter of machine load: inconclusive, not a
+# finding about the input; only inputs on which the target itself failed (crash-*, leak-*) are replayed and reported
+watchdog = [a for a in arts if os.path.basename(a).split("-")[0] in ("timeout", "oom", "slow")]
+arts = [a for a in arts if a not in watchdog]
+if watchdog:
+    print(f"{prop} [libfuzzer/{target}]: {len(watchdog)} input(s) stopped by libFuzzer's timeout / memory watchdog: inconclusive")
+    rc = 2
 for a in arts[:5]:
     q = subprocess.run([f"{harness}/target/checked/vcheck", prop, "--artifact", target, a], env=env, capture_output=True, text=True)
     print(q.stdout, end="")
